@@ -68,8 +68,17 @@ def run_case(ctx, kind_, idx):
                 if adaptive:
                     # exactly representable maps; the exponent range includes changes of unit by many orders of
                     # magnitude (bit/s <-> Tbit/s), where absolute thresholds hidden in the code would show
+                    # ... and up to the edge of the floating-point range (products of two jumps under- or overflow
+                    # long before the values themselves do), as far as every value and every jump stays normal
+                    ya = np.abs(np.asarray(y, dtype=float))
+                    jumps = np.abs(np.diff(np.asarray(y, dtype=float)))
+                    pos = np.concatenate([ya[ya > 0], jumps[jumps > 0]])
+                    k_lo = int(min(-61, np.ceil(-960 - np.log2(float(np.min(pos)))))) if len(pos) else -61
+                    k_hi = int(max(61, np.floor(960 - np.log2(float(np.max(pos)) + 1.0)))) if len(pos) else 61
                     a = float(rng.choice([-1, 1])) * 2.0 ** int(rng.choice([int(rng.integers(-3, 5)), int(rng.integers(-60, -20)),
-                                                                              int(rng.integers(20, 60))]))
+                                                                              int(rng.integers(20, 60)),
+                                                                              int(rng.integers(k_lo, -60)),
+                                                                              int(rng.integers(60, k_hi + 1))]))
                     # a*y + b must stay exactly representable: integer shifts only next to moderate scales
                     b = float(rng.integers(-8, 9)) if 2.0 ** -3 <= abs(a) <= 2.0 ** 5 else 0.0
                 else:
